@@ -330,10 +330,3 @@ func init() {
 		},
 	})
 }
-
-func clipS(s string, n int) string {
-	if len(s) > n {
-		return s[:n] + "…"
-	}
-	return s
-}
